@@ -111,7 +111,7 @@ def run_once(doc, fmt, workdir, tmpdir, name, present, fault, n_writes):
     return before, snapshot(workdir), sorted(os.listdir(tmpdir)), exc, plan["calls"]
 
 
-def run(ctx):
+def run(ctx, use_model=True):
     g = Gen(ctx.seed * 1000003 + 17)
     fails = []
     base = tempfile.mkdtemp(prefix="c17-", dir=os.environ.get("VERIF_SCRATCH", None))
@@ -181,6 +181,8 @@ def run(ctx):
         # destination analysis channel: model's destPath vs what really happens to the name
         for name in NAMES + ["file:///tmp/x.json", "//host/x.json", "http://host/x.json", "FILE:rel.json", "c+d.e-f:x", "1a:b"]:
             model_ops.append({"op": "dest_path", "s": name})
+        if not use_model:
+            return fails
         outs = run_model(model_ops)[1:]
         ctx.model_ops += len(outs)
         for (case, exp), got in zip(expectations, outs):
@@ -199,7 +201,7 @@ def run(ctx):
 
 
 def oracle_only(ctx):
-    return [f for f in run(ctx) if f.kind == "oracle"]
+    return [f for f in run(ctx, use_model=False) if f.kind == "oracle"]
 
 
 def replay(ctx, case):
